@@ -11,7 +11,7 @@ D = "config.json programs/tables translated to SMT (z3 reals), walk model valida
 
 CHECKS = {
     "C01": ("K", "model_checking",
-            "line splitting: Session::set_text on every text of <= 4 lines with symbolic line contents and every LF/CRLF separator pattern (also mixed) stores exactly one part per line (MIR; Regex::split modelled for the constant pattern \\r\\n|\\n only); execute_session's loop: for every line count 1..4 and every per-line outcome exactly one slot per line, status true (CBMC); stages C-E (token glue, parser ladder, interpreter) executed symbolically from MIR on every token list of length <= 4 (quick) / 5 (thorough) over {number, + - * / ( )} and over the same alphabet plus an unabsorbed word and a time-zone name: no satisfiable panic path, every loop and recursion terminates (a loop the executor cannot leave is replayed natively; a run that does not return is the violation); the number / percent / money literal tokenisers on every text their number group can match (digit runs joined by ',' '.' in any mixture; radix literals up to 17 / 22 / 64 digits) and '<date> at N' for every number: no panic; panic-freedom of the rule functions and DataItem kernels is decided by the engine-M parts of C05/C06/C09/C10/C11/C13/C14 (every panic path of the translated functions is a reachability query)",
+            "line splitting: Session::set_text on every text of <= 4 lines with symbolic line contents and every LF/CRLF separator pattern (also mixed) stores exactly one part per line (MIR; Regex::split modelled for the constant pattern \\r\\n|\\n only); execute_session's loop: for every line count 1..4 and every per-line outcome exactly one slot per line, status true (CBMC); stages C-E (token glue, parser ladder, interpreter) executed symbolically from MIR on every token list of length <= 4 (quick) / 5 (thorough) over {number, + - * / ( )} and over the same alphabet plus an unabsorbed word and a time-zone name: no satisfiable panic path, every loop and recursion terminates (a loop the executor cannot leave is replayed natively; a run that does not return is the violation); the number / percent / money literal tokenisers on every text their number group can match (digit runs joined by ',' '.' in any mixture; radix literals up to 17 / 22 / 64 digits) and '<date> at N' for every number: no panic; every straight-line program of <= 2 lines through the real variable machinery with RefCell borrows of the variable slots tracked (re-assigning a variable in terms of itself does not panic); the clock-time tokeniser's kernel under every zone offset; panic-freedom of the rule functions and DataItem kernels is decided by the engine-M parts of C05/C06/C09/C10/C11/C13/C14 (every panic path of the translated functions is a reachability query)",
             "stage A (regex tokenisers, load_from_json) is outside the claim; the regex engine itself is a contract model in the line-splitting part; execute_text is a nondeterministic stub inside the loop harness; token lists are bounded in length and alphabet",
             "solver-based: CBMC bounded model checking + z3 over MIR-derived path conditions"),
     "C02": ("K+M", "model_checking",
@@ -19,7 +19,7 @@ CHECKS = {
             "literal spelling / spacing / k-M-G suffixes are stage A (regex) and outside; f64 rounding of individual operations outside (real relaxation); expression length bounded",
             "solver-based: z3 over SMT generated from the MIR of the real parser/interpreter + CBMC"),
     "C03": ("M", "translation_validation",
-            "every straight-line program of <= 3 lines (quick; plus all three names bound then any two statements) / <= 4 lines (thorough) over 22 statement templates (assignments, self-referential re-assignments, uses, lines failing in the parser, lines failing in the interpreter, copies, a name spelled with capitals, a three-word name followed by an operator and another name, a name directly followed by another name) with one-, two- and three-word names where one name is a prefix of another, through the REAL update_token_variables, token_generator, token_cleaner, missing_token_adder, AssignmentParser and interpreter (MIR): each line evaluates to the value given by the latest bindings for ALL real constants",
+            "every straight-line program of <= 3 lines (quick; plus all three names bound then any two statements) / <= 4 lines (thorough) over 27 statement templates (assignments, self-referential re-assignments, uses, lines failing in the parser, lines failing in the interpreter, copies, a name spelled with capitals, a three-word name followed by an operator and another name, a name directly followed by another name, a name with an operator character inside that is bound twice, a percentage-valued variable behind a sign) with one-, two- and three-word names where one name is a prefix of another, through the REAL update_token_variables, token_generator, token_cleaner, missing_token_adder, AssignmentParser and interpreter (MIR): each line evaluates to the value given by the latest bindings for ALL real constants",
             "names are Text tokens (case folding and literal spelling are stage A); values are numbers; program length and name pool bounded",
             "solver-based: z3 over SMT generated from the MIR, program shapes enumerated exhaustively"),
     "C04": ("K+M", "model_checking",
@@ -43,11 +43,11 @@ CHECKS = {
             "the digit generation of core::fmt (grisu/dragon) is assumed to meet its documentation and is not executed; more than 7 integer digits and, with rounding off, more than 3 fraction digits are outside the bound; values are reals (NaN/inf outside)",
             "solver-based: z3 over SMT generated from the MIR, digit-count shapes enumerated, digits symbolic"),
     "C08": ("M+D", "translation_validation",
-            "reading: the number / percent / money tokenisers' kernel (one regex match as input; the number group a literal WRITTEN in the configured convention - optional sign, 1..3 digit groups joined by the thousands separator, optional decimal separator and 1..3 fraction digits, digits symbolic; str::replace and f64 parsing modelled on the written text) yields the intended number under both conventions the literal regexes admit ('.' decimal with ',' groups, ',' decimal with '.' groups), so a literal rewritten into the other convention denotes the same value under that configuration; computing: no rule function and no calculate kernel reads the separator settings (symbolic execution of all their paths never touches the two configuration fields), unit conversion - the one computation that re-enters the reader - agrees with the unit definitions under both conventions (engine D, native comparison on all 1089 pairs); printing: format_number inserts the separators between digits that do not depend on them (C07, separators symbolic)",
+            "reading: the number / percent / money tokenisers' kernel (one regex match as input; the number group a literal WRITTEN in the configured convention - optional sign, 1..3 digit groups joined by the thousands separator, optional decimal separator and 1..3 fraction digits, digits symbolic; str::replace and f64 parsing modelled on the written text) yields the intended number under both conventions the literal regexes admit ('.' decimal with ',' groups, ',' decimal with '.' groups), so a literal rewritten into the other convention denotes the same value under that configuration; computing: no rule function and no calculate kernel reads the separator settings (symbolic execution of all their paths never touches the two configuration fields), unit conversion - the one computation that re-enters the reader - agrees with the unit definitions under both conventions and on a calculator whose separators are switched between evaluations (engine D, native comparison on all 1089 pairs); printing: format_number inserts the separators between digits that do not depend on them (C07, separators symbolic)",
             "the regex engine (which texts are matched) is outside; separators other than '.' and ',' cannot occur in literals the patterns admit; f64 rounding outside (real relaxation)",
             "solver-based: z3 over SMT generated from the MIR with structured literal texts; z3 over config.json's unit programs"),
     "C09": ("K+M", "model_checking",
-            "DateItem::calculate on the real chrono: every date of years 1..9999 +- n days (-30 < n < 30, negative counts included) is exactly n days away; + Y years M months keeps the day and moves the month index by 12Y+M inside the stated region (CBMC); small_date accepts exactly the calendar dates and denotes them (z3 over MIR, Gregorian model validated against chrono by CBMC); 'A to B' on dates is the absolute difference; rule wiring: the property's phrases as token lines through rule_tokinizer with config.json's own rule table (dumped natively per run): each phrase is taken by exactly its rule function with the fields bound by name to the right tokens",
+            "DateItem::calculate on the real chrono: every date of years 1..9999 +- n days (-30 < n < 30, negative counts included) is exactly n days away; + Y years M months keeps the day and moves the month index by 12Y+M inside the stated region (CBMC); DateItem::print reads every day / month / year it shows from the item's own calendar date for every zone offset (the zone never moves a date to its neighbour); small_date accepts exactly the calendar dates and denotes them (z3 over MIR, Gregorian model validated against chrono by CBMC); 'A to B' on dates is the absolute difference; rule wiring: the property's phrases as token lines through rule_tokinizer with config.json's own rule table (dumped natively per run): each phrase is taken by exactly its rule function with the fields bound by name to the right tokens",
             "month/year arithmetic of DateItem::calculate outside the stated region (December landings, day > 28, subtraction across a year boundary, day counts >= 30 that are not month multiples) is NOT claimed: it has defects documented in DESIGN.md section 7; date spellings are regex",
             "solver-based: CBMC bounded model checking + z3 over MIR"),
     "C10": ("M", "translation_validation",
@@ -55,7 +55,7 @@ CHECKS = {
             "unit word spellings / singular-plural word choice are data + regex; chrono's TimeDelta modelled as whole seconds",
             "solver-based: z3 (linear integer arithmetic) over SMT generated from the MIR"),
     "C11": ("M", "translation_validation",
-            "TimeItem::calculate moves the clock by D mod 24 h in the right direction for every time and duration; DurationItem::as_time is |D| mod 24 h; convert_timezone keeps the instant and installs the target offset; time_with_timezone keeps the wall reading for all offsets within +-14 h; the clock-time tokeniser's kernel (time_regex_parser with one regex match as symbolic input, constrained by what config.json's time patterns can match): the literal is the instant today + wall time - configured offset with the day carry, pm adds 12 hours ('12 am' read as noon is a recorded known finding); parse_timezone on symbolic captures; rule wiring: the property's phrases as token lines through rule_tokinizer with config.json's own rule table (dumped natively per run): each phrase is taken by exactly its rule function with the fields bound by name to the right tokens",
+            "TimeItem::calculate moves the clock by D mod 24 h in the right direction for every time and duration; DurationItem::as_time is |D| mod 24 h; convert_timezone keeps the instant and installs the target offset; time_with_timezone keeps the wall reading for all offsets within +-14 h; TimeItem::print puts the hour / minute / second of the wall time (instant + zone offset) modulo 24 h into the text (0..23, 0..59, 0..59) followed by the zone name; the clock-time tokeniser's kernel (time_regex_parser with one regex match as symbolic input, constrained by what config.json's time patterns can match): the literal is the instant today + wall time - configured offset with the day carry, pm adds 12 hours ('12 am' read as noon is a recorded known finding); parse_timezone on symbolic captures; rule wiring: the property's phrases as token lines through rule_tokinizer with config.json's own rule table (dumped natively per run): each phrase is taken by exactly its rule function with the fields bound by name to the right tokens",
             "chrono modelled as (day number, second of day); chrono::Local modelled as one arbitrary fixed offset; the regex engine itself is outside: a match is an input whose groups satisfy what the patterns guarantee; zone table lookup is data",
             "solver-based: z3 over SMT generated from the MIR with validated chrono models"),
     "C12": ("D", "translation_validation",
